@@ -939,6 +939,8 @@ func _recover(n *node) {
 		if f.anc.recovered == nil {
 			// TODO(mpl): maybe we don't need that special case, and we're just forgetting to unwrap the valueInterface somewhere else.
 			if isEmptyInterface(n.typ) {
+				// Reset the result, it may hold the value of a previous call to recover.
+				dest(f).Set(reflect.Zero(dest(f).Type()))
 				return tnext
 			}
 			dest(f).Set(reflect.ValueOf(valueInterface{}))
